@@ -91,7 +91,10 @@ func (w XY) Unit() XY {
 
 // Length treats XY as a vector, and returns its length.
 func (w XY) Length() float64 {
-	return math.Sqrt(w.lengthSq())
+	// math.Hypot rather than the square root of the squared length: the
+	// squares of very small components underflow to zero, and those of very
+	// big ones overflow to infinity, long before the length itself does.
+	return math.Hypot(w.X, w.Y)
 }
 
 // lengthSq treats XY as a vector, and returns its squared length.
@@ -111,7 +114,7 @@ func (w XY) Less(o XY) bool {
 }
 
 func (w XY) distanceTo(o XY) float64 {
-	return math.Sqrt(w.distanceSquaredTo(o))
+	return o.Sub(w).Length()
 }
 
 func (w XY) distanceSquaredTo(o XY) float64 {
